@@ -904,8 +904,14 @@ class tensor:
                     if np.array_equal(self.data, Y.data):
                         all_diffs[p_idx] = 0
                     else:
+                        # Subtract in floating point: unsigned integer data would
+                        # wrap around and boolean data cannot be subtracted at all
+                        ftype = np.result_type(self.data.dtype, np.float64)
                         all_diffs[p_idx] = np.max(
-                            np.abs(self.data.ravel() - Y.data.ravel())
+                            np.abs(
+                                self.data.ravel().astype(ftype, copy=False)
+                                - Y.data.ravel().astype(ftype, copy=False)
+                            )
                         )
 
             if return_details is False:
